@@ -55,8 +55,8 @@ Print Assumptions C10_holds_b_sound.
    reverse, LEN, Split at every prefix length, SplitBySuffix at every suffix length,
    HomogenousVariadic get / into_iter, into_option, PartialEqVariadic), transcribed with the
    recursion structure of the Rust impls, ARE the plain list functions (app, rev, length,
-   firstn/skipn, nth_error, map Some, equality).  The VecVariadic part (zip_vecs / push: see
-   zip_push in PVC; get / drain) is correspondence-checked only. *)
+   firstn/skipn, nth_error, map Some, equality); likewise the VecVariadic part
+   (C10_variadic_vec_ops below). *)
 Theorem C10_variadic_tuple_ops :
   forall r r2 rows idx lo hi,
     let m := model_vobs r r2 rows idx lo hi in
@@ -66,6 +66,17 @@ Theorem C10_variadic_tuple_ops :
     o_into_iter m = o_into_iter s /\ o_into_option m = o_into_option s /\ o_eq m = o_eq s.
 Proof. exact variadic_tuple_ops. Qed.
 Print Assumptions C10_variadic_tuple_ops.
+
+(* VecVariadic (the column store): after into_singleton_vec + push of rows of one arity >= 1,
+   zip_vecs gives the rows in order, get(i) is the i-th row, drain(lo..hi) yields rows lo..hi and
+   leaves the others (None = the Vec::drain panic when not lo <= hi <= len) *)
+Theorem C10_variadic_vec_ops :
+  forall r r2 rows idx lo hi, r <> [] -> Forall (fun x => length x = length r) rows ->
+    let m := model_vobs r r2 rows idx lo hi in
+    let s := spec_vobs r r2 rows idx lo hi in
+    o_vec_zip m = o_vec_zip s /\ o_vec_get m = o_vec_get s /\ o_vec_drained m = o_vec_drained s.
+Proof. exact variadic_vec_ops. Qed.
+Print Assumptions C10_variadic_vec_ops.
 
 Theorem C10_split_by_suffix_roundtrip :
   forall m l p s, vsplit_by_suffix m l = Some (p, s) -> vextend p s = l /\ length s = m.
